@@ -196,7 +196,7 @@ def cases(draw):
         for d in (a, b):
             comps = (parent.split('/') if parent else []) + d.split('/')
             for i in range(1, len(comps) + 1):
-                ents.setdefault('/'.join(comps[:i]), 'd')
+                ents['/'.join(comps[:i])] = 'd'    # (a literal base exists)
             for f in draw(st.lists(st.sampled_from(FILENAMES[:8]),
                                    min_size=1, max_size=3, unique=True)):
                 ents.setdefault('/'.join(comps + [f]), 'f')
